@@ -126,3 +126,25 @@ Proof. apply read_bytes_aux_ok. lia. Qed.
 Theorem text_roundtrip s : exists m, text_write (MString s) = Some m /\ to_bytes m = Some s /\
   (forall f, text_read (MBytesReader f) = Some f) /\ (forall f, text_read (MBytes f) = Some f).
 Proof. eexists. split; [reflexivity|]. repeat split. Qed.
+
+(* C09: which accepted message types reach the channel as ONE low-level write *)
+Definition single_kind (m : msg) : bool :=
+  match m with
+  | MBytes _ | MVec _ | MBuffer _ => true
+  | MBytesReader (_ :: _) | MStringsReader (_ :: _) => true
+  | MWriterTo [_] => true
+  | _ => false
+  end.
+Theorem head_single m : single_kind m = true -> exists c, head_write m = Some ([c], ROk).
+Proof.
+  destruct m as [b|bs|b|s|[|x b]|[|x s]|[|w [|w2 steps]]|r|]; cbn; intros H; try discriminate; eexists; reflexivity.
+Qed.
+(* a reader whose content arrives in one read of at most 1024 bytes is one write too *)
+Theorem head_single_reader (c : bytes) : c <> [] -> blen c <= 1024 ->
+  head_write (MReader (of_frags [c])) = Some ([LWrite1 c], ROk).
+Proof.
+  intros Hc Hl. cbn [head_write]. unfold read_from, of_frags, mu. cbn [chunks final contents concat fin_data length app].
+  cbn [read_from_aux]. unfold read. cbn [chunks final]. rewrite fits_spec by lia.
+  destruct (Z.leb_spec (blen c) 1024); [|lia]. cbn [read_from_aux]. unfold read. cbn [chunks final].
+  destruct c; [congruence|]. rewrite app_nil_r. reflexivity.
+Qed.
